@@ -289,3 +289,17 @@ Lemma segment_content_local pc pc' secs :
 Proof.
   intros H. unfold segment_content. f_equal. apply map_ext_in. exact H.
 Qed.
+
+(** * Chain resolution through the decoded SAT (instance of C07's unbounded theorem) *)
+From SE Require Import AkaiChainProofs.
+Lemma akai_chain_to_content_lemma block sat pc s c :
+  Forall (fun w => 0 <= w < 65536) block -> zlen block = SAT_ENTRIES ->
+  akai_decode block = Ok sat ->
+  raw_chain (S (length block)) block [] s = Some c -> linked_once block c = true ->
+  get_segment pc sat s = Ok (segment_content pc c).
+Proof.
+  intros Hb Hlen Hdec Hraw Hlo.
+  pose proof (akai_decode_chain_lemma block s c Hb ltac:(rewrite Hlen; unfold SAT_ENTRIES; lia) Hraw Hlo) as H.
+  unfold akai_get_segment in H. rewrite Hdec in H. cbn [bind] in H. rewrite Hlen in H.
+  unfold get_segment. rewrite H. reflexivity.
+Qed.
